@@ -60,6 +60,9 @@ func (in *Interp) doCall(fr *frame, cc *ssa.CallCommon, fnv Value, args []Value,
 // callFn dispatches intrinsics, models, externals and real bodies.
 func (in *Interp) callFn(fn *ssa.Function, args []Value, bind []Value) Value {
 	name := fn.Name()
+	if name == "init" && fn.Synthetic == "package initializer" && in.inInit > 0 && fn.Pkg != nil && !in.initing[fn.Pkg] {
+		return nil // dependencies are initialised lazily, on first access to one of their globals
+	}
 	if strings.HasPrefix(name, "verif") && fn.Pkg != nil {
 		if h, ok := intrinsics[name]; ok {
 			return h(in, fn, args)
